@@ -397,4 +397,38 @@ def R5_builder(ctx):
             ctx.check(ok, "builder-field:%s.%s" % (var, fld), "the %s of %s is not the configured `%s` value unmodified: %s" % (fld, var, key, short(t)[:200]), bs[0].where(), detail=short(t)[:120])
 
 
-RULES = [R1_test_first, R2_counters, R3_predicates, R4_never_an_answer, R4b_errors_unchanged, R5_builder]
+
+def R6_duration(ctx):
+    """C10.R6 the configured runtime limit is read as h:mm:ss"""
+    F = ctx.F
+    ctx.rule("C10.R6", "Value::as_duration reads \"h:mm:ss\" as Duration::from_secs(h*3600 + m*60 + s) with h, m, s the captures of those names", floor=1)
+    bs = [b for p_, b in F.bodies.items() if p_.endswith("DurationExtension>::as_duration")]
+    if len(bs) != 1:
+        raise AnchorMissing("DurationExtension::as_duration impl")
+    b = bs[0]
+    tm = Terms(b)
+    fs = [c for c in b.calls() if (c.callee or "").endswith("Duration::from_secs")]
+    ok = len(fs) == 1
+    got = None
+    if ok:
+        t = clean(tm.operand(fs[0].args[0], fs[0].bb))
+        syms = {}
+        for x in subterms(t):
+            if x[0] == "at" and x[2][0] == "const" and x[2][2] in ("h", "m", "s"):
+                # the parsed capture group
+                pass
+        def name_of(x):
+            if x[0] == "call" and re.search(r"str::.*parse", x[1]) and x[2] and x[2][0][0] == "at" and x[2][0][2][0] == "const" and x[2][0][2][2] in ("h", "m", "s"):
+                return x[2][0][2][2]
+            return None
+        A = Arith(F)
+        A.symbols = {x: name_of(x) for x in subterms(t) if name_of(x)}
+        try:
+            got = A.ev(t)
+            want = Ratio(Poly.sym("h")) * Ratio(Poly.const(3600)) + Ratio(Poly.sym("m")) * Ratio(Poly.const(60)) + Ratio(Poly.sym("s"))
+            ok = got.equals(want)
+        except Exception:
+            ok = False
+    ctx.check(ok, "as_duration:h*3600+m*60+s", "the duration is %r, expected 3600*h + 60*m + s" % (got,), b.where(), detail="from_secs(h*3600 + m*60 + s)")
+
+RULES = [R1_test_first, R2_counters, R3_predicates, R4_never_an_answer, R4b_errors_unchanged, R5_builder, R6_duration]
